@@ -409,7 +409,12 @@ def topological_symmetry_number(graph: StereoMolGraph) -> int:
             "all stereocenters have to be defined"
             " to calculate the symmetry number"
         )
-    colorings = color_refine_smg(graph)
+    colorings = {
+        atom: (atom_type, int(color))
+        for atom, atom_type, color in zip(
+            graph.atoms, graph.atom_types, color_refine_smg(graph)
+        )
+    }
     mappings = vf2pp_all_isomorphisms(
         graph, graph, atom_labels=(colorings, colorings), stereo=True
     )
